@@ -559,8 +559,9 @@ class Rinex3Parser(ChainParser):
         if not line["year"].isnumeric():
             return
 
-        # Reject comment line
-        if line["comment"][0:1].isalpha():
+        # Reject comment line: columns 61-80 of an epoch record are blank, anything there is the label of a header
+        # record following an event epoch (labels like '# OF SATELLITES' do not start with a letter)
+        if line["comment"]:
             return
 
         cache["obs_time"] = "{year}-{month:02d}-{day:02d}T{hour:02d}:{minute:02d}:{second:010.7f}" "".format(
